@@ -245,7 +245,7 @@ def build_case(kinds, template, types, cwrap=CWRAP_CALC):
     """-> dict(script, ds, vd, where)
 
     kinds: one letter per operand — 's' typed scalar (Null = the literal null), 'c' component of DS_1 used inside
-           a clause, 'd' mono-measure dataset, 'v' value domain / set literal, 'h' the measure of a dataset given
+           a clause, 'd' mono-measure dataset, 'e' the same with only the first identifier, 'v' value domain / set literal, 'h' the measure of a dataset given
            to hierarchy/check_hierarchy (template is then the whole script)
     template: expression with {0}, {1}, ... for the operands
     """
@@ -272,9 +272,9 @@ def build_case(kinds, template, types, cwrap=CWRAP_CALC):
             else:
                 comps.append(c(nm, t, "Measure"))
             exprs.append(nm)
-        elif k in ("d", "h"):
+        elif k in ("d", "e", "h"):
             nm = "DS_%s" % "abcd"[i]
-            idl = ids if k == "d" else [c("Id_1", "Integer", "Identifier"), c("Id_2", "String", "Identifier")]
+            idl = ids if k == "d" else (ids[:1] if k == "e" else [c("Id_1", "Integer", "Identifier"), c("Id_2", "String", "Identifier")])
             if t == NULL:
                 dss.append(harness.structure(nm + "0", idl + [c("Me_1", "Integer", "Measure")]))
                 dpre.append("%s := %s0[calc Me_1 := null];" % (nm, nm))
@@ -283,7 +283,7 @@ def build_case(kinds, template, types, cwrap=CWRAP_CALC):
             exprs.append(nm)
         else:
             raise ValueError(k)
-    has_c, has_d = "c" in kinds, ("d" in kinds or "h" in kinds)
+    has_c, has_d = "c" in kinds, ("d" in kinds or "h" in kinds or "e" in kinds)
     if has_c and has_d:
         raise ValueError("components and datasets cannot be mixed in one expression")
     expr = template.format(*exprs)
